@@ -26,13 +26,18 @@ Convert(F, kind, v) ==
          [] kind = "chars" -> SV(ToStr(F, v))
          [] kind = "nodelist" -> IF v.t = "ns" THEN v ELSE ErrV
 
+(* a delivered node-set must be a duplicate-free sequence in document order (C12) *)
+Delivered(j) == [k \in 1..Len(j.v) |-> <<j.v[k][1], j.v[k][2], j.v[k][3]>>]
+OrderOk(ev) == ("error" \in DOMAIN ev) \/ ev.res.t # "ns" \/ Delivered(ev.res) = DocOrderSeq(Range(Delivered(ev.res)))
+
 C02Step(s, ev) ==
   LET want == Convert(Forest, ev.kind, Eval(ev.expr, Ctx(ev)))
       isErr == "error" \in DOMAIN ev
       got == IF isErr THEN ErrV ELSE LoadVal(ev.res)
   IN IF want.t = "unm" THEN [ok |-> TRUE, st |-> s, drop |-> TRUE, msg |-> ""]
-     ELSE [ok |-> want = got, st |-> s, drop |-> FALSE, cont |-> TRUE,
-           msg |-> "want " \o ToString(want) \o " got " \o ToString(got)]
+     ELSE [ok |-> want = got /\ OrderOk(ev), st |-> s, drop |-> FALSE, cont |-> TRUE,
+           msg |-> (IF want = got THEN "ORDER: delivered sequence is not in document order: " \o ToString(ev.res.v)
+                    ELSE "want " \o ToString(want) \o " got " \o ToString(got))]
 
 TraceInit2 == TLCSet(2, ndJsonDeserialize(IOEnv.DOCS))
 
